@@ -343,9 +343,19 @@ func (c *Ctx) wf(v string, t types.Type, top string) string {
 			return ii.rangeFact(v)
 		}
 	case "Addr":
-		return "(and (<= (root " + v + ") " + top + ") (< (- 100000) (root " + v + ")))"
+		ty := "true"
+		if pt, ok := t.Underlying().(*types.Pointer); ok {
+			c.reg.SortOf(pt.Elem()) // registers struct pointees so that their field-type axioms are emitted
+			ty = fmt.Sprintf("(=> (not (= %s nil)) (= (atype %s) %d))", v, v, c.reg.TypeID(pt.Elem()))
+		}
+		return "(and (<= (root " + v + ") " + top + ") (< (- 100000) (root " + v + ")) " + ty + ")"
 	case "Slice":
-		return "(and (<= (root (sarr " + v + ")) " + top + ") (< (- 100000) (root (sarr " + v + "))) (<= 0 (soff " + v + ")) (<= 0 (slen " + v + ")) (<= (slen " + v + ") (scap " + v + ")) (=> (= (sarr " + v + ") nil) (= " + v + " nil_slice)))"
+		if sl, ok := t.Underlying().(*types.Slice); ok {
+			return fmt.Sprintf("(and (=> (not (= (sarr %s) nil)) (= (atype (sarr %s)) %d)) %s)", v, v, c.reg.ArrID(sl.Elem()), c.wfSliceBase(v, top))
+		}
+		return c.wfSliceBase(v, top)
+	case "SliceBase":
+		return "(and (<= (root (sarr " + v + ")) " + top + ") (< (- 100000) (root (sarr " + v + "))) (<= 0 (soff " + v + ")) (<= 0 (slen " + v + ")) (<= (slen " + v + ") (scap " + v + ")) (<= (scap " + v + ") 4611686018427387904) (=> (= (sarr " + v + ") nil) (= " + v + " nil_slice)))"
 	case "Iface":
 		return "(and (<= (root (ipay " + v + ")) " + top + ") (< (- 100000) (root (ipay " + v + "))) (>= (itag " + v + ") 0) (=> (= (itag " + v + ") 0) (= " + v + " nil_iface)))"
 	case "Func":
@@ -509,4 +519,8 @@ func (c *Ctx) zeroArrayConst(elemSort, zero string) string {
 	n := "zeroarr_" + sanitize(elemSort)
 	c.reg.AddDecl("zeroarr:"+elemSort, "(declare-const "+n+" (Array Int "+elemSort+"))\n(assert (forall ((i Int)) (! (= (select "+n+" i) "+zero+") :pattern ((select "+n+" i)))))")
 	return n
+}
+
+func (c *Ctx) wfSliceBase(v, top string) string {
+	return "(and (<= (root (sarr " + v + ")) " + top + ") (< (- 100000) (root (sarr " + v + "))) (<= 0 (soff " + v + ")) (<= 0 (slen " + v + ")) (<= (slen " + v + ") (scap " + v + ")) (<= (scap " + v + ") 4611686018427387904) (=> (= (sarr " + v + ") nil) (= " + v + " nil_slice)))"
 }
